@@ -300,6 +300,10 @@ class BehavioralRTLIRTypeCheckVisitorL2( BehavioralRTLIRTypeCheckVisitorL1 ):
         op = opmap[node.op.__class__]
         operand = node.operand._value
         node._value = eval(f"{op}{operand}")
+        if node._is_explicit:
+          # ~Bits8(1), -Bits8(1): an explicitly sized constant keeps its
+          # width and wraps, like the Bits object in simulation
+          node._value = int( node._value ) & ( ( 1 << node.Type.get_dtype().get_length() ) - 1 )
         # A negative constant needs the two's complement width of its value,
         # which may be one bit more than the width of the operand (-129)
         if not node._is_explicit and node._value < 0:
